@@ -66,6 +66,10 @@ func genCSCTTL(seed uint64, tier, variant string) any {
 	for i, n := 0, 4+r.IntN(10); i < n; i++ {
 		p.Ghosts = append(p.Ghosts, GhostSpec{Kind: "tick", DurMs: pick(r, 1, 1, 2, 4, 9, 19, 48, 99, 500, 3000), MinStep: r.IntN(150)})
 	}
+	// ... and by amounts that are not whole milliseconds, so that a key can be read in its last millisecond (PTTL 0)
+	for i, n := 0, r.IntN(5); i < n; i++ {
+		p.Ghosts = append(p.Ghosts, GhostSpec{Kind: "tick", DurMs: pick(r, 0, 0, 0, 2, 9, 49), DurUs: pick(r, 200, 500, 900), MinStep: r.IntN(150)})
+	}
 	// a slow server makes request start and reply arrival differ by up to seconds
 	if r.IntN(2) == 0 {
 		p.Faults = append(p.Faults, FaultSpec{Kind: "slow", AtStep: 5 + r.IntN(60), NeedInflight: r.IntN(2) == 0, DurMs: pick(r, 3, 30, 300, 2500)})
@@ -159,6 +163,9 @@ func execCSCTTL(t *testing.T, plan any, out *Outcome) {
 			hi := fi.sentAt.Add(time.Duration(ttl) * time.Millisecond).UnixMilli()
 			if hi < lo {
 				hi = lo
+			}
+			if !static && fi.pttl == 0 {
+				out.probe("server-pttl-zero")
 			}
 			if !static && fi.pttl >= 0 {
 				srv := fi.arrived.Add(time.Duration(fi.pttl) * time.Millisecond).UnixMilli()
